@@ -286,6 +286,20 @@ def simStep (H : Bytes → Str) (reps : Array SimRep) (line : JVal) : Array SimR
                     let e11 := if writtenPacks.isEmpty || out.packName = writtenPacks.head? then [] else S "pack name differs; "
                     let p' := PState.validateAll { d2.p with deltas := PState.insertDelta b .applied d2.p.deltas, docs := d2.p.docs.map (fun p => (p.1, p.2.commit)) }
                     finishD { d2 with p := p', stage := [] } (e1 ++ e2 ++ e3 ++ e4 ++ e5 ++ e6 ++ e7 ++ e8 ++ e9 ++ e10 ++ e11 ++ ePack)
+        else if prim = S "export" then
+          -- `stage()`: bodies compared literally, change records as a set (hash-map order inside a tree)
+          let impl := (objGet (S "stage") o).getD .null
+          let mine := (DState.stageExport rep.d).getD .null
+          let part := fun (v : JVal) (k : Str) => (objGet k (v.asObj?.getD [])).getD .null
+          let e1 := if (part impl ['o']).render = (part mine ['o']).render then [] else S "exported object bodies differ; "
+          let recs := fun (v : JVal) => ((part v ['c']).asArr?.getD []).map JVal.render
+          let e2 := if sameSet (recs impl) (recs mine) then [] else S "exported change records differ; "
+          finish st (e1 ++ e2)
+        else if prim = S "replay" then
+          match DState.replayStage H rep.d ((objGet (S "stage") o).getD .null) with
+          | .ok d' => finishD d' (expectRes true)
+          | .err _ => finish st (expectRes false)
+          | .panic _ => finish st (S "replay: model panics")
         else if prim = S "adopt" then
           -- replay of an exported stage: the model takes over the reported trees and staged bodies
           -- after checking that committed entries are untouched and re-deriving leaves/winner
